@@ -283,7 +283,7 @@ void h_rs_interp(void)
     rs_post r;
     ENSURES(P->nrows == A->nrows && P->ncols == nc, "interpolation: P is n x nc (nc = number of C points)");
     ENSURES(crs_wf(P, NMAX, NMAX, ZMAX) && P->nnz == (size_t)P->ptr[P->nrows],
-            "interpolation: P is well-formed CRS (monotone ptr from 0, every column index in [0, nc))");
+            "safety: interpolation: P is well-formed CRS (monotone ptr from 0, every column index in [0, nc); an unwritten slot would hold an arbitrary index)");
     r.crows = r.fill = r.keep = r.drop = r.vals = r.nodup = 1;
 #ifndef RS_ALL_ROWS
     rs_spec_row(A, S.val, cf, &prm, P, i0, cidx, w_thr_min[i0], w_thr_max[i0], &r);
@@ -293,7 +293,7 @@ void h_rs_interp(void)
     ENSURES(r.crows, "interpolation: a C row has the single entry (i, cidx[i]) = 1");
     ENSURES(r.keep, "interpolation: every strong C coupling strictly beyond the truncation threshold (all of them without truncation) is an entry of the F row, column cidx[j], in row order");
     ENSURES(r.drop, "interpolation: no strong C coupling strictly inside the truncation threshold is an entry of the F row");
-    ENSURES(r.fill, "interpolation: every slot of an F row of P is written with one kept strong C coupling (no unwritten or extra slot)");
+    ENSURES(r.fill, "safety (no uninitialised slot): interpolation: every slot of an F row of P is written with one kept strong C coupling (no unwritten or extra slot)");
     ENSURES(r.nodup, "interpolation: no duplicate column in a row of P");
     ENSURES(r.vals, "interpolation: F-row weights are alpha*a_ij (a_ij<0) / beta*a_ij with alpha = -cf*|sum N^-|/(|a_ii'|*|sum P^-|), cf = |sum P^-|/|sum of the KEPT P^-| (truncation rescales so that the total weight is unchanged)");
   }
@@ -511,11 +511,11 @@ void h_sa_smooth(void)
           "smoothing: the spectral radius of A is estimated exactly when estimate_spectral_radius is set (with prm.power_iters)");
   ENSURES(P->nrows == A->nrows && P->ncols == T->ncols, "smoothing: P is n x ncols(P_tent)");
   ENSURES(crs_wf_p(P, NMAX, NMAX) && P->nnz == (size_t)P->ptr[P->nrows],
-          "smoothing: P is well-formed CRS (monotone ptr from 0, every column index in range)");
+          "safety: smoothing: P is well-formed CRS (monotone ptr from 0, every column index in range)");
   {
     sa_post r;
     sa_spec_entry(A, st0, T, sa_omega(&prm0), P, i0, c0, &r);
-    ENSURES(r.pattern, "smoothing: pattern of a row of P == pattern of (A_strong + diag) * P_tent: a column occurs exactly once if it has a contribution, never otherwise (no duplicate, no unwritten slot)");
+    ENSURES(r.pattern, "safety (no unwritten slot): smoothing: pattern of a row of P == pattern of (A_strong + diag) * P_tent: a column occurs exactly once if it has a contribution, never otherwise (no duplicate)");
     ENSURES(r.vals, "smoothing: P = (I - omega D^-1 A^F) P_tent entry by entry (A^F: weak couplings lumped to the diagonal; omega = relax*(4/3)/rho or relax*(2/3)), as a fold in row order");
   }
   for (size_t j = 0; j < CAP_NNZ; ++j) ENSURES(aggr.strong_connection[j] == st0[j], "frame: strong_connection is not modified");
@@ -682,11 +682,11 @@ void h_rs_connect(void)
   {
     cn_post r; size_t nflag = 0;
     cn_spec_row(A, &S, cf, w_thr[i0], i0, &r);
-    ENSURES(r.flags, "connect: every flag of a row with a negative off-diagonal coupling is written: 1 strictly beyond eps_strong * min_k a_ik, 0 strictly inside and on the diagonal, 0/1 at equality");
-    ENSURES(r.frow, "connect: a variable without a negative off-diagonal coupling is marked F and has no strong connection (every flag of its row is 0)");
+    ENSURES(r.flags, "safety (no uninitialised flag): connect: every flag of a row with a negative off-diagonal coupling is written: 1 strictly beyond eps_strong * min_k a_ik, 0 strictly inside and on the diagonal, 0/1 at equality");
+    ENSURES(r.frow, "safety (no uninitialised flag): connect: a variable without a negative off-diagonal coupling is marked F and has no strong connection (every flag of its row is written 0)");
     ENSURES(r.cfkeep, "connect: a variable with a negative off-diagonal coupling stays undecided (U)");
     for (size_t j = 0; j < CAP_NNZ; ++j) if (j < (size_t)A->ptr[A->nrows] && S.val[j]) ++nflag;
-    ENSURES(scrs_wf(&S, A->nrows, nflag), "connect: S.ptr / S.col are a well-formed n x n pattern with one entry per strong connection");
+    ENSURES(scrs_wf(&S, A->nrows, nflag), "safety: connect: S.ptr / S.col are a well-formed n x n pattern with one entry per strong connection");
     ENSURES(cn_spec_transposed(A, &S, c0, i0), "connect: row c of S.ptr / S.col lists exactly the rows i with a strong connection (i, c), ascending (transposed pattern)");
   }
   ENSURES(crs_unchanged(A, &s), "frame: the input matrix is not modified");
@@ -694,9 +694,10 @@ void h_rs_connect(void)
 }
 ''',
     entry='h_rs_connect', mode='unwound', unwind='max(ZMAX,NMAX)+3', model='int32 (ordered ring) + uninterpreted scaling by eps_strong',
-    variants=[{'NMAX': 3, 'ZMAX': 6}],
-    thorough_variants=[{'NMAX': 3, 'ZMAX': 7}],
-    bound_text='all square matrices with n <= 3, nnz <= 6 (thorough 7), no duplicate column in a row, even integer values in [-8,8] '
+    # measured (minisat, load 5): 3/5 58 s, 3/6 95-115 s
+    variants=[{'NMAX': 3, 'ZMAX': 5}],
+    thorough_variants=[{'NMAX': 3, 'ZMAX': 6}],
+    bound_text='all square matrices with n <= 3, nnz <= 5 (thorough 6), no duplicate column in a row, even integer values in [-8,8] '
                '(diagonal stored or not, rows unsorted, any signs), every threshold scaling with eps_strong >= 0; all symbolic; '
                'fresh arrays hold arbitrary prior heap content',
     assumptions=A_BOUNDED + [A_NODUP,
@@ -816,9 +817,10 @@ void h_rs_cfsplit(void)
 }
 ''',
     entry='h_rs_cfsplit', mode='unwound', unwind='max(ZMAX,NMAX)+3', model='none (pattern only)',
-    variants=[{'NMAX': 3, 'ZMAX': 5}],
-    thorough_variants=[{'NMAX': 3, 'ZMAX': 6}],
-    bound_text='all square sparsity patterns with n <= 3, nnz <= 5 (thorough 6), no duplicate column in a row, every strong-connection '
+    # measured (minisat, load 5): n <= 3 symbolic 87-106 s; n == 3 exact 61 s, n <= 2 14 s
+    variants=[{'NMAX': 3, 'ZMAX': 5, 'NROWS': 3}, {'NMAX': 2, 'ZMAX': 4}],
+    thorough_variants=[{'NMAX': 3, 'ZMAX': 6, 'NROWS': 3}, {'NMAX': 2, 'ZMAX': 4}],
+    bound_text='all square sparsity patterns with n <= 3 (variants n == 3, n <= 2), nnz <= 5 (thorough 6), no duplicate column in a row, every strong-connection '
                'flag array with its transposed pattern and every marking over {U, F} that connect() can return; all symbolic',
     assumptions=A_BOUNDED + [A_NODUP,
         'A-given: (S, cf) satisfy the postcondition of connect() (unit ruge_stuben_connect): composition by the Hoare sequence rule',
